@@ -8,6 +8,10 @@ void dma_tick(Dma* d, u16 ch) { d->channels[ch].Tick(*d); }
 void dma_dodma(Dma* d, u16 ch) { d->DoDma(ch); }
 void dma_setz(Dma* d, u16 v) { d->SetZ(v); }
 void dma_reset(Dma* d) { d->Reset(); }
+void dma_activate(Dma* d, u16 v) { d->ActivateChannel(v); }
+void dma_setsize0(Dma* d, u16 v) { d->SetSize0(v); }
+u16 dma_getsize0(const Dma* d) { return d->GetSize0(); }
+void dma_setsrcspace(Dma* d, u16 v) { d->SetSrcSpace(v); }
 void ahbm_ctor(Ahbm* a) { new (a) Ahbm(); }
 void ahbm_reset(Ahbm* a) { a->Reset(); }
 u16 ahbm_read16(Ahbm* a, u16 ch, u32 addr) { return a->Read16(ch, addr); }
